@@ -3272,7 +3272,12 @@ class FuncRandom(ValueFunc):
 
     def execute(self, args, environment, pos):
         if args.hasArg("a") and not args.hasArg("b"):
-            return ValueInt(self.getRandomInt(0, args.getInt("a").value))
+            try:
+                return ValueInt(self.getRandomInt(0, args.getInt("a").value))
+            except OverflowError:
+                raise CklRuntimeError(
+                    ValueString("ERROR"), "Range is too large", pos
+                )
 
         if args.hasArg("a") and args.hasArg("b"):
             try:
